@@ -199,14 +199,9 @@ def run(chk: Check) -> None:
     depth_hist: dict = {}
     rejected = 0
     n_done = 0
-    for chunk in progs.chunks(plan, 400):
-        if time.time() - t0 > budget:
-            break
+    for chunk in progs.export_in_chunks(plan, max_models=400, deadline=t0 + budget):
         done, lines = [], []
-        for d, cfg in chunk:
-            if time.time() - t0 > budget:
-                break
-            ex = progs.export(d, cfg)
+        for ex in chunk:
             if not ex.ok:
                 errors[ex.error.split(":")[0]] = errors.get(ex.error.split(":")[0], 0) + 1
                 continue
@@ -237,7 +232,6 @@ def run(chk: Check) -> None:
                 chk.finding({"kind": "not_loadable", "oracle": f["oracle"], "program": progs.describe(ex.desc)},
                             f"{f['oracle']} rejects the export of {progs.describe(ex.desc)}: {f['msg'][:160]}",
                             {"program": ex.desc, "config": ex.cfg, "oracle": f})
-        progs.clear_cache()
         chk.log(f"{n_done} models checked at {round(time.time() - chk.t0, 1)} s")
     chk.info("exports", {"planned": len(plan), "exported": n_done, "export_raised": errors,
                          "wall_s": round(time.time() - t0, 1)})
